@@ -124,7 +124,30 @@ func c01GenStmt(rt *rapid.T, tbl, class string, allowND, allowParams bool) (c01S
 		return e
 	}
 	var st c01Stmt
-	switch rapid.IntRange(0, 9).Draw(rt, "stmtKind") {
+	// random-class call for the shapes below (the ORDER BY exclusion of the
+	// rewriter concerns RANDOM() only)
+	rnd := func() string {
+		if !allowND {
+			return "7"
+		}
+		nd++
+		return rapid.SampledFrom([]string{"random()", "RANDOM()", "abs(random()) % 1000", "hex(randomblob(4))"}).Draw(rt, "rcall")
+	}
+	switch rapid.IntRange(0, 13).Draw(rt, "stmtKind") {
+	case 10:
+		// a call the walk reaches after an ORDER BY term: in LIMIT
+		nd++
+		st.SQL = fmt.Sprintf("INSERT INTO %s(a,b,c) SELECT a, b, %s FROM %s ORDER BY id LIMIT abs(random()) %% 3 + 1", tbl, ex(), tbl)
+	case 11:
+		// ... after the ORDER BY of a window definition
+		st.SQL = fmt.Sprintf("INSERT INTO %s(a,b,c) SELECT row_number() OVER (ORDER BY id), %s, %s FROM %s WHERE id %% 2 = %d", tbl, rnd(), ex(), tbl, rapid.IntRange(0, 1).Draw(rt, "rem"))
+	case 12:
+		// ... after the ORDER BY ... LIMIT of a FROM sub-select
+		st.SQL = fmt.Sprintf("INSERT INTO %s(a,b,c) SELECT s.a, s.id, 'sub' FROM (SELECT a, id FROM %s ORDER BY id DESC LIMIT 4) AS s WHERE %s %% 2 = 0 OR s.id > 0", tbl, tbl, "abs(random())")
+		nd++
+	case 13:
+		// ... and in a later column of an ordered INSERT..SELECT
+		st.SQL = fmt.Sprintf("INSERT INTO %s(a,b,c) SELECT id, %s, %s FROM (SELECT id FROM %s ORDER BY id LIMIT 3) AS s", tbl, rnd(), ex(), tbl)
 	case 0, 1, 2, 3:
 		rows := rapid.IntRange(1, 2).Draw(rt, "rows")
 		var vs []string
@@ -283,7 +306,7 @@ func c01Dump(str *store.Store) (string, error) {
 
 func TestVerif_C01_Converge(t *testing.T) {
 	rec := vstat.New(t, "C01", "converge",
-		"generated SQL programs: every write endpoint (/db/execute JSON, text/plain, ?queue&wait, /db/request, /db/load SQL text; generated order) sends 1-2 requests of 1-3 statements (INSERT multi-row / UPDATE / DELETE / INSERT..SELECT / OR REPLACE / UPSERT, parameters, tx flag, multi-statement texts) with calls of RANDOM/RANDOMBLOB/date-time-at-now to its own table through the real HTTP handlers; apply paths: live leader, live follower, restart replay (with or without snapshot, optionally >1 s later), peers.json recovery of a copy, late joiner (log replay or snapshot install); non-trivial = >=1 non-deterministic call reached the node and >=3 apply paths were compared; distinct = hash of program + path options")
+		"generated SQL programs: every write endpoint (/db/execute JSON, text/plain, ?queue&wait, /db/request, /db/load SQL text; generated order) sends 1-2 requests of 1-3 statements (INSERT multi-row / UPDATE / DELETE / INSERT..SELECT incl. ORDER BY/LIMIT, window and FROM-sub-select shapes with a call after the ORDER BY / OR REPLACE / UPSERT, parameters, tx flag, multi-statement texts) with calls of RANDOM/RANDOMBLOB/date-time-at-now to its own table through the real HTTP handlers; apply paths: live leader, live follower, restart replay (with or without snapshot, optionally >1 s later), peers.json recovery of a copy, late joiner (log replay or snapshot install); non-trivial = >=1 non-deterministic call reached the node and >=3 apply paths were compared; distinct = hash of program + path options")
 	rapid.Check(t, func(rt *rapid.T) { c01Case(rt, rec) })
 }
 
